@@ -28,6 +28,21 @@ NOT_PROVED = ('binary64 rounding (2^-30 on compared quantities, 2^-22 on eigen-s
 ASSUMPTIONS = ['c_gev_available / c_eig_available are False in this environment (python fallback _get_gev_vector)']
 SHARD = 10
 
+def laid_out(arrs, layout):
+    """memory layout of the caller's arrays is part of the input: 'C' read-only C order (default), 'F' read-only with the
+    last two axes stored transposed (Fortran order per matrix, e.g. from scipy.io.loadmat or a Hermitian-transposed view),
+    'Fw' the same but writable, so that an in-place write by LAPACK (overwrite_a) is not stopped by the read-only flag"""
+    out = []
+    for a in arrs:
+        a = np.array(a)
+        if layout in ('F', 'Fw') and a.ndim >= 2:
+            a = np.ascontiguousarray(a.swapaxes(-1, -2)).swapaxes(-1, -2)
+        if layout != 'Fw':
+            a.setflags(write=False)
+        out.append(a)
+    return out
+
+
 OTHER_NAMES = ['pca', 'mvdr_souden', 'rank1_pca+mvdr_souden', 'rank1_gev+mvdr_souden', 'wmwf', 'rank1_pca+wmwf',
                'rank1_gev+wmwf', 'pca+mvdr', 'scaled_gev_atf+mvdr', 'rank1_pca+gev', 'rank1_gev+gev', 'ch0', 'ch1',
                'mvdr_souden+ban', 'pca+ban']
@@ -72,7 +87,7 @@ def make_gev(rng, tier, idx):
     Px = rand_psd(rng, lead, D, kind, scale)
     Pn = rand_hpd(rng, lead, D, scale=scale * 10.0 ** rng.uniform(-1, 1))
     use_eig = bool(rng.random() < 0.4)
-    rp = {'fn': 'gev', 'Px': Px, 'Pn': Pn, 'use_eig': use_eig, 'kind': kind, 'probe_seed': int(rng.integers(1 << 30)),
+    rp = {'layout': str(rng.choice(['C', 'C', 'F', 'Fw'])), 'fn': 'gev', 'Px': Px, 'Pn': Pn, 'use_eig': use_eig, 'kind': kind, 'probe_seed': int(rng.integers(1 << 30)),
           'kw_default': bool(rng.random() < 0.2) and not use_eig}
     fail, key, coq, raised = eval_gev(rp, rng)
     name = 'gev %s lead=%s D=%d use_eig=%s' % (kind, lead, D, use_eig)
@@ -85,7 +100,7 @@ def eval_gev(rp, rng=None):
     import scipy.linalg as sl
     from pb_bss.extraction.beamformer import get_gev_vector
     from pb_bss.extraction.beamformer_wrapper import get_bf_vector
-    Px, Pn = frozen(rp['Px'], rp['Pn'])
+    Px, Pn = laid_out([rp['Px'], rp['Pn']], rp.get('layout', 'C'))
     use_eig = rp['use_eig']
     D = Px.shape[-1]
     lead = Px.shape[:-2]
@@ -163,7 +178,7 @@ def make_pca(rng, tier, idx):
     lead = tuple(int(v) for v in rng.integers(1, 5 if nlead > 1 else (33 if tier == 'thorough' else 13), nlead))
     kind = str(rng.choice(['full', 'full', 'rank1', 'low']))
     Phi = rand_psd(rng, lead, D, kind, 10.0 ** rng.integers(-3, 4))
-    rp = {'fn': 'pca', 'Phi': Phi, 'kind': kind, 'probe_seed': int(rng.integers(1 << 30))}
+    rp = {'layout': str(rng.choice(['C', 'C', 'F', 'Fw'])), 'fn': 'pca', 'Phi': Phi, 'kind': kind, 'probe_seed': int(rng.integers(1 << 30))}
     fail, key, coq, raised = eval_pca(rp, rng)
     name = 'pca %s lead=%s D=%d' % (kind, lead, D)
     return Case(name, coq=coq, pred_fail=fail, key=key, nontrivial=True, digest_=core.digest(Phi),
@@ -172,7 +187,7 @@ def make_pca(rng, tier, idx):
 
 def eval_pca(rp, rng=None):
     from pb_bss.extraction.beamformer import get_pca_vector
-    Phi, = frozen(rp['Phi'])
+    Phi, = laid_out([rp['Phi']], rp.get('layout', 'C'))
     D = Phi.shape[-1]
     lead = Phi.shape[:-2]
     pb = Phi.tobytes()
@@ -248,7 +263,7 @@ def make_rank1(rng, tier, idx):
         kw = {'scaling': str(rng.choice(['trace', 'eigenvalue']))}
     if which == 'gev' and rng.random() < 0.4:
         kw = {'use_eig': True}
-    rp = {'fn': 'rank1', 'cov': cov, 'Pn': Pn, 'which': which, 'kw': kw, 'kind': kind}
+    rp = {'layout': str(rng.choice(['C', 'C', 'F', 'Fw'])), 'fn': 'rank1', 'cov': cov, 'Pn': Pn, 'which': which, 'kw': kw, 'kind': kind}
     fail, key, coq, raised = eval_rank1(rp, rng)
     name = 'rank1_%s %s lead=%s D=%d %s' % (which, kind, lead, D, kw)
     return Case(name, coq=coq, pred_fail=fail, key=key, nontrivial=True, digest_=core.digest(cov, Pn, which, sorted(kw.items())),
@@ -258,7 +273,7 @@ def make_rank1(rng, tier, idx):
 def eval_rank1(rp, rng=None):
     from pb_bss.extraction.beamformer import get_pca_vector, get_gev_vector
     from pb_bss.extraction import beamformer_wrapper as bw
-    cov, Pn = frozen(rp['cov'], rp['Pn'])
+    cov, Pn = laid_out([rp['cov'], rp['Pn']], rp.get('layout', 'C'))
     which, kw, kind = rp['which'], dict(rp['kw']), rp['kind']
     D = cov.shape[-1]
     lead = cov.shape[:-2]
@@ -323,7 +338,7 @@ def make_ban(rng, tier, idx):
         w = w.real.astype(float)            # real-valued input (e.g. the unit vectors of 'chN')
     s = complex(10.0 ** rng.uniform(-3, 3) * np.exp(2j * np.pi * rng.random()))
     Px = rand_psd(rng, lead, D, 'full', 1.0)
-    rp = {'fn': 'ban', 'w': w, 'Pn': Pn, 'Px': Px, 's': s}
+    rp = {'layout': str(rng.choice(['C', 'C', 'F', 'Fw'])), 'fn': 'ban', 'w': w, 'Pn': Pn, 'Px': Px, 's': s}
     fail, key, coq, raised = eval_ban(rp, rng)
     name = 'ban lead=%s D=%d %s' % (lead, D, w.dtype)
     return Case(name, coq=coq, pred_fail=fail, key=key, nontrivial=True, digest_=core.digest(w, Pn),
@@ -332,7 +347,7 @@ def make_ban(rng, tier, idx):
 
 def eval_ban(rp, rng=None):
     from pb_bss.extraction.beamformer import blind_analytic_normalization as ban
-    w, Pn, Px = frozen(rp['w'], rp['Pn'], rp['Px'])
+    w, Pn, Px = laid_out([rp['w'], rp['Pn'], rp['Px']], rp.get('layout', 'C'))
     s = rp['s']
     D = w.shape[-1]
     lead = w.shape[:-1]
